@@ -98,7 +98,7 @@ def pow256(k):
         return 72057594037927936
     if k == 8:
         return 18446744073709551616
-    return 256 ** k
+    return pow2(8 * k)
 
 
 def up16(n):
